@@ -17,6 +17,8 @@ Decided:
   C02.cache   reusable scratch buffers and recorders are cleared before they are refilled (shared with C01)
   C02.count   the byte / checksum adaptors account the bytes actually transferred (shared with C07 / C13 / C14)
   (C02.num also requires that nothing can fail after the frame number was advanced: consecutive numbering)
+  C02.cast    narrowing `as` casts in stream.rs / crc.rs are shown lossless or audited (castlib): a header field is not truncated on its way out
+  C02.enc     the frame encoder's decorrelation, zero/wasted-bit and recorder-slot rules (taken from C01): the side channel written is left - right
 Not decided: residual ranges, predictor / wasted-bit semantics, that the decoded PCM equals the input.
 """
 from rules.common import *
@@ -62,6 +64,8 @@ def rice_escape_rules(F, ok, rep, P):
                       "a Rice parameter equal to the escape code can be emitted: the decoder reads the partition as escaped")
         if b.path.startswith("encode::write_residuals::try_shrink_header::{closure"):
             cm = [st_["rv"]["op"] for bl in b.blocks for st_ in bl["s"] if st_["rv"]["r"] == "bin" and st_["rv"]["op"] in ("Lt", "Le", "Gt", "Ge")]
+            if not cm:
+                continue        # a closure that only re-wraps the narrowed value
             n += 1
             rep.check(P + ".resid", "try_shrink_header narrows a parameter to the 4-bit method only if it is strictly below the 4-bit escape code", cm == ["Lt"], loc_of(b), str(cm),
                       "parameter 15 can be written with coding method 0, where 15 is the escape code")
